@@ -69,7 +69,7 @@ impl Conn {
                     Endpoint::AddSnapshot => req_add_snapshot(c, id, chunks(data.unwrap())),
                     Endpoint::GetSnapshot => req_get_snapshot(c),
                 };
-                match exchange(srv.addr, &req, *enc, wsizes, Duration::from_secs(60)) {
+                match exchange(srv.addr, &req, *enc, wsizes, Duration::from_secs(240)) {
                     Ok(r) => Ok(decode(ep, &r)),
                     Err(SockError::NoResponse(m)) => Err(Fail::Inconclusive(format!("socket exchange gave no response: {m}"))),
                     Err(SockError::Io(m)) => Err(Fail::Inconclusive(format!("socket i/o: {m}"))),
@@ -113,6 +113,19 @@ fn open(p: &P6) -> Result<Conn, Fail> {
 
 fn check(p: &P6, st: &mut Stats) -> CheckResult {
     let mut conn = open(p)?;
+    // payloads that *are* gzip or zlib streams are, half of the time, also declared as such
+    if let Conn::Drv(d) = &mut conn {
+        if p.later % 2 == 0 {
+            d.content_encoding = match p.spec.class % case::N_CLASSES {
+                8 => Some("gzip"),
+                9 => Some("deflate"),
+                _ => None,
+            };
+            if d.content_encoding.is_some() {
+                st.label("c06:declared-content-encoding");
+            }
+        }
+    }
     let c = case::client_uuid(6, 0);
     let small = Bytes::from_static(b"first");
     let mode = if p.snapshot && p.first % 3 == 1 { 2 } else { p.first % 3 };
@@ -389,7 +402,7 @@ fn check_interleaved(ic: &ICase, st: &mut Stats) -> CheckResult {
     };
     let ws = WebServer::new(crate::driver::server_config(&cfg), None, ArcStorage(storage));
     let srv = SockServer::start(ws).map_err(|e| Fail::Inconclusive(format!("cannot start a socket server: {e:#}")))?;
-    let to = Duration::from_secs(30);
+    let to = Duration::from_secs(240);
     let n = ic.uploads.len();
     let clients: Vec<Uuid> = (0..n).map(|i| case::client_uuid(66, i as u8)).collect();
     let inconc = |e: SockError| Fail::Inconclusive(format!("socket: {e:?}"));
